@@ -306,3 +306,73 @@ Definition request_args_checks (qs : str) : res unit := parse_qsl_checks args_ma
 
 (* position-weighted sum of a text: a compact pin for a long regex text (the full text is pinned in C13) *)
 Fixpoint weighted_sum (s : str) (i : N) : N := match s with [] => 0 | c :: r => c * i + weighted_sum r (i + 1) end.
+
+(* ================================================================== Cache-Control, CSP, dates *)
+
+(* http.parse_cache_control_header(value) : the directive dict handed to the class *)
+Definition parse_cache_control (value : option str) : res odict :=
+  match value with
+  | None => Ok []
+  | Some [] => Ok []
+  | Some v => parse_dict_header v
+  end.
+
+(* _CacheControl._get_cache_value with the conversion's ValueError handled as the source does *)
+Definition cc_get_e (d : odict) (key : str) (empty : cc_value) (ty : cc_type) : res cc_value :=
+  match ty with
+  | CcBool => Ok (CvBool (dict_has key d))
+  | _ =>
+    match dict_get key d with
+    | None => Ok CvNone
+    | Some None => Ok empty
+    | Some (Some v) =>
+      match ty with
+      | CcInt => try_except (do z <- py_int v; Ok (CvInt z)) is_value_error (Ok CvNone)
+      | _ => Ok (CvStr v)
+      end
+    end
+  end.
+
+(* http.parse_csp_header(value) *)
+Definition parse_csp_e (value : option str) : res sdict :=
+  match value with None => Ok [] | Some v => Ok (parse_csp v) end.
+
+(* http.parse_date over any model of email.utils.parsedate_to_datetime: the except clause is the regenerated one *)
+Definition parse_date_over {D : Type} (parsedate : str -> res D) (value : option str) : res (option D) :=
+  match value with
+  | None => Ok None
+  | Some v => try_except (do d <- parsedate v; Ok (Some d)) parse_date_catches (Ok None)
+  end.
+
+(* ================================================================== Request attributes that compose the modelled parsers *)
+
+(* the client-controlled part of a WSGI environ: Latin-1 text, None = variable absent *)
+Record environ := {
+  e_query : str; e_cookie : option str; e_authorization : option str; e_range : option str;
+  e_if_match : option str; e_if_none_match : option str; e_content_length : option str;
+  e_transfer_encoding : option str; e_content_type : option str; e_cache_control : option str }.
+
+Definition wire_text (s : str) : bool := forallb (fun c => (c <? 256) && negb (c =? LF)) s.
+Definition wire_opt (o : option str) : bool := match o with Some s => wire_text s | None => true end.
+Definition environ_ok (e : environ) : bool :=
+  wire_text (e_query e) && wire_opt (e_cookie e) && wire_opt (e_authorization e) && wire_opt (e_range e)
+  && wire_opt (e_if_match e) && wire_opt (e_if_none_match e) && wire_opt (e_content_length e)
+  && wire_opt (e_transfer_encoding e) && wire_opt (e_content_type e) && wire_opt (e_cache_control e).
+
+Definition or_empty (o : option str) : str := match o with Some s => s | None => [] end.
+
+(* Request.args: the text handed to parse_qsl's field splitter (the splitting and unquoting are total) *)
+Definition request_args (e : environ) : res str :=
+  do t <- query_text args_decode_replace (e_query e); do _ <- request_args_checks t; Ok t.
+(* Request.cookies: sansio parse_cookie on the raw header text *)
+Definition request_cookies (e : environ) : res (list (str * str)) := cookie_sansio (or_empty (e_cookie e)).
+Definition request_authorization (e : environ) : res (option auth) :=
+  match e_authorization e with None => Ok None | Some h => authorization_from_header h end.
+Definition request_range (e : environ) : res (option range) :=
+  match e_range e with None => Ok None | Some h => parse_range_header h end.
+Definition request_if_match (e : environ) : res etags := parse_etags (or_empty (e_if_match e)).
+Definition request_if_none_match (e : environ) : res etags := parse_etags (or_empty (e_if_none_match e)).
+Definition request_content_length (e : environ) : res (option Z) := get_content_length (e_content_length e) (e_transfer_encoding e).
+Definition request_mimetype_params (e : environ) : res sdict :=
+  do '(_, o) <- parse_options_header (or_empty (e_content_type e)); Ok o.
+Definition request_cache_control (e : environ) : res odict := parse_cache_control (e_cache_control e).
